@@ -651,6 +651,11 @@ pub(crate) fn parse_matcher<'data>(
                 break;
             }
 
+            if input.is_empty() {
+                // The block was never closed. Report the missing brace rather than looping.
+                '}'.parse_next(input)?;
+            }
+
             // Symbols at the end of `extern` blocks may omit semicolons
             let expect_semicolon = {
                 let remaining = &**input;
@@ -687,9 +692,8 @@ pub(crate) fn parse_matcher<'data>(
         if input.contains(&b'}') {
             take_until(1.., b'}').parse_next(input)?
         } else {
-            // TODO: Clippy bug
-            #[allow(clippy::needless_borrow)]
-            &input
+            // Take everything that's left, so that callers that loop make progress.
+            winnow::token::rest.parse_next(input)?
         }
     } else {
         take_until(1.., b';').parse_next(input)?
